@@ -3,8 +3,9 @@
 #ifndef TETL_VARIANT_VARIANT_ALTERNATIVE_SELECTOR_HPP
 #define TETL_VARIANT_VARIANT_ALTERNATIVE_SELECTOR_HPP
 
+#include <etl/_cstddef/size_t.hpp>
 #include <etl/_type_traits/declval.hpp>
-#include <etl/_variant/overload.hpp>
+#include <etl/_utility/index_sequence.hpp>
 
 namespace etl::detail {
 
@@ -19,15 +20,26 @@ struct variant_alternative_array {
 template <typename T, typename Ti>
 concept variant_alternative_candidate = requires { variant_alternative_array<Ti>{{etl::declval<T>()}}; };
 
-template <typename Ti>
+/// The index keeps the overloads of a repeated alternative type apart: `variant<int, int>` has two
+/// distinct (ambiguous) candidates, so the selection fails softly (SFINAE) like in std::variant
+/// instead of deriving twice from one base.
+template <size_t I, typename Ti>
 struct variant_alternative_selector_single {
     template <typename T>
         requires variant_alternative_candidate<T, Ti>
     auto operator()(Ti /*t*/, T&& /*original*/) const -> Ti;
 };
 
+template <typename Indices, typename... Ts>
+struct variant_alternative_selector_set;
+
+template <size_t... Is, typename... Ts>
+struct variant_alternative_selector_set<index_sequence<Is...>, Ts...> : variant_alternative_selector_single<Is, Ts>... {
+    using variant_alternative_selector_single<Is, Ts>::operator()...;
+};
+
 template <typename... Ts>
-inline constexpr auto variant_alternative_selector = etl::overload{variant_alternative_selector_single<Ts>{}...};
+inline constexpr auto variant_alternative_selector = variant_alternative_selector_set<index_sequence_for<Ts...>, Ts...>{};
 
 template <typename T, typename... Ts>
 using variant_alternative_selector_t
